@@ -100,6 +100,8 @@ impl OperationControl for Repeat {
                 positions.push(p);
             }
             for _i in 0..bound {
+                #[cfg(feature = "verif-hooks")]
+                crate::verif::step(crate::verif::site::GREEDY_REPEAT);
                 let mut it = self.operation.matches_iter(matcher, p);
                 if let Some(next) = it.next() {
                     p = next;
@@ -201,11 +203,15 @@ impl Iterator for GreedyRepeatIterator<'_> {
             false
         } else {
             loop {
+                #[cfg(feature = "verif-hooks")]
+                crate::verif::step(crate::verif::site::GREEDY_REPEAT);
                 let top = self.iterators.last_mut().unwrap();
                 if let Some(mut p) = top.next() {
                     self.positions.pop();
                     self.positions.push(p);
                     while self.iterators.len() < self.bound {
+                        #[cfg(feature = "verif-hooks")]
+                        crate::verif::step(crate::verif::site::GREEDY_REPEAT);
                         let mut it = self.operation.matches_iter(self.matcher, p);
                         if let Some(next) = it.next() {
                             p = next;
@@ -267,6 +273,8 @@ impl Iterator for ReluctantRepeatIterator<'_> {
 
     fn next(&mut self) -> Option<Self::Item> {
         loop {
+            #[cfg(feature = "verif-hooks")]
+            crate::verif::step(crate::verif::site::RELUCTANT_REPEAT);
             if let Some(position) = self.position {
                 let mut it = self.operation.matches_iter(self.matcher, position);
                 if let Some(position) = it.next() {
